@@ -353,6 +353,56 @@ def transformInputs {ι' : Type} (d : LabeledData ι κ) (f : ι → ι') (sh : 
 
 end LabeledData
 
+/-! ### WeightedLabeledData (`detail::BaseWeightedDataset<LabeledData<I,L>>`, WeightedDataset.h): the data and a
+`Data<double>` of weights; every structural operation is applied to the data part and then to the weights -/
+structure WeightedData (ι κ ω : Type) where
+  data : LabeledData ι κ
+  weights : Data ω
+  deriving Repr
+
+namespace WeightedData
+variable {ω : Type}
+
+def numberOfElements (d : WeightedData ι κ ω) : Nat := d.data.numberOfElements
+def partitioning (d : WeightedData ι κ ω) : List Nat := d.data.partitioning
+
+/-- the constructor `BaseWeightedDataset(data, weights)` -/
+def mk' (d : LabeledData ι κ) (w : Data ω) : R (WeightedData ι κ ω) :=
+  if d.numberOfElements = w.numberOfElements then .ok ⟨d, w⟩ else .error .exception
+
+def splitBatch (d : WeightedData ι κ ω) (b k : Nat) : R (WeightedData ι κ ω) := do
+  pure ⟨← d.data.splitBatch b k, ← d.weights.splitBatch b k⟩
+
+def repartition (d : WeightedData ι κ ω) (sizes : List Nat) : R (WeightedData ι κ ω) := do
+  pure ⟨← d.data.repartition sizes, ← d.weights.repartition sizes⟩
+
+/-- `shuffle()`: `m_data.reorderElements(indices); m_weights.reorderElements(indices)` with one index vector -/
+def reorderElements (d : WeightedData ι κ ω) (indices : List Nat) : R (WeightedData ι κ ω) := do
+  pure ⟨← d.data.reorderElements indices, ← d.weights.reorderElements indices⟩
+
+def append (d o : WeightedData ι κ ω) : WeightedData ι κ ω := ⟨d.data.append o.data, d.weights.append o.weights⟩
+
+def indexedSubset (d : WeightedData ι κ ω) (indices : List Nat) : R (WeightedData ι κ ω) := do
+  pure ⟨← d.data.indexedSubset indices, ← d.weights.indexedSubset indices⟩
+
+/-- `WeightedLabeledData::splice(batch)` -/
+def splice (d : WeightedData ι κ ω) (b : Nat) : R (WeightedData ι κ ω × WeightedData ι κ ω) := do
+  let (l, r) ← d.data.splice b
+  let (wl, wr) ← d.weights.splice b
+  pure (⟨l, wl⟩, ← mk' r wr)
+
+/-- `splitAtElement(weighted, k)` (the same template as for `LabeledData`) -/
+def splitAtElement (d : WeightedData ι κ ω) (k : Nat) : R (WeightedData ι κ ω × WeightedData ι κ ω) := do
+  require (k ≤ d.numberOfElements)
+  let (batchPos, batchStart) ← ofOpt (LabeledData.splitScan d.partitioning 0 0 k)
+  let splitPoint ← ofOpt (csub k batchStart)
+  if splitPoint ≠ 0 then
+    let d ← d.splitBatch batchPos splitPoint
+    d.splice (batchPos + 1)
+  else d.splice batchPos
+
+end WeightedData
+
 /-! ### class-label operations (`LabeledData<I, unsigned int>`) -/
 abbrev CData (ι : Type) := LabeledData ι Nat
 
@@ -408,6 +458,20 @@ def binarySubProblem (d : CData ι) (zeroClass oneClass : Nat) : R (CData ι) :=
   let sub ← d.indexedSubset idx
   sub.transformLabels (fun l => if l = oneClass then 1 else 0) []
 
+/-- the batch index set `binarySubProblem` collects with its four scanning loops (the same loops as in
+`binarySubProblem`; `C03.binarySubProblem_eq_indexSet`) -/
+def binaryIndexSet (d : CData ι) (zeroClass oneClass : Nat) : R (List Nat) := do
+  let smaller := min zeroClass oneClass
+  let bigger := max zeroClass oneClass
+  let fl := d.labels.batches.map fun b => b[0]?
+  let (l, start) ← binarySubProblem.skip fl 0 smaller
+  if l.isEmpty then throw .exception
+  let (l, start, idx) ← binarySubProblem.take l start smaller []
+  let (l, start) ← binarySubProblem.skip l start bigger
+  if l.isEmpty then throw .exception
+  let (_, _, idx) ← binarySubProblem.take l start bigger idx
+  pure idx
+
 /-- `oneVersusRestProblem(data, oneClass)` -/
 def oneVersusRestProblem (d : CData ι) (oneClass : Nat) : R (CData ι) :=
   d.transformLabels (fun l => if l = oneClass then 1 else 0) []
@@ -447,13 +511,16 @@ def elements (v : View ι κ) : List (Option (ι × κ)) := (List.range v.size).
 def subBatch (v : View ι κ) (idx : List Nat) : R (List (ι × κ)) := do
   let s ← v.subset idx
   ofOpt (s.elements.mapM id)
-/-- `toDataset(view, batchSize)`: shapes are *not* carried over (fresh `LabeledData(size, element, batchSize)`) -/
-def toDataset (v : View ι κ) (batchSize : Nat) : R (LabeledData ι κ) := do
+/-- `toDataset(view, batchSize)`: a fresh `LabeledData(size, element, batchSize)` filled through the element
+iterator.  The element shapes of the viewed dataset are carried over (`keepShape`; the unrepaired C++ built the
+result with empty shapes -- finding F-C03-16 -- which `keepShape := false` reproduces) -/
+def toDataset (v : View ι κ) (batchSize : Nat) (keepShape : Bool := true) : R (LabeledData ι κ) := do
   if v.size = 0 then pure LabeledData.empty
   else
     let els ← ofOpt (v.elements.mapM id)
     let sizes ← ofOpt (initializeBatchSizes v.size batchSize)
-    pure ⟨{ batches := splitBySizes (els.map (·.1)) sizes }, { batches := splitBySizes (els.map (·.2)) sizes }⟩
+    pure ⟨{ batches := splitBySizes (els.map (·.1)) sizes, shape := if keepShape then v.dataset.inputs.shape else [] },
+          { batches := splitBySizes (els.map (·.2)) sizes, shape := if keepShape then v.dataset.labels.shape else [] }⟩
 
 end View
 
